@@ -1,6 +1,7 @@
 SPECIFICATION MCSpec
 CONSTANTS Sender = {"s1", "s2"}
           MaxFaults = 2
+          MaxCfg = 0
           QueueMode = TRUE
           QCap = 2
           MaxConn = 3
